@@ -12,10 +12,13 @@ PRELOAD_NETWORK_ORDERS = [["btc", "xtn", "ltc", "bch", "grs", "doge", "dash", "b
 LEVEL = "exploration"
 TECHNIQUE = "differential runtime monitor: _signature_hash / _signature_for_hash_type_segwit and the digest tapped at Generator.verify vs reference legacy/BIP143 digests, all 256 hash types per sampled (tx, input, script code)"
 RULE = ("(coin, tx, input index, script code, amount) tuples x every hash-type byte 0..255 x {legacy entry point, segwit entry point}; "
-        "transactions with 1-6 inputs, 0-6 outputs (so index >= outputs occurs), boundary versions / lock times / sequences / amounts; "
+        "transactions with 1-6 inputs, 0-6 outputs (so index >= outputs occurs), some inputs witness-bearing, boundary versions / lock times / "
+        "sequences / amounts; per shard two transactions with 253-300 inputs and 0-301 outputs at positions 0 / 251-252 / last (14 hash types); "
         "script codes: empty, standard templates, random opcodes, code separators at start/middle/end/adjacent/inside push data, truncated "
-        "final push. Plus signature-bearing spends whose verified digest is tapped at Generator.verify. Non-trivial ('hard'): hash type base "
-        "is not ALL, or ANYONECANPAY, or a code separator / unparsable tail is present; distinct by (coin, algorithm, tx, idx, script, ht).")
+        "final push (every class at least once per shard). Plus signature-bearing spends whose verified digest is tapped at Generator.verify, "
+        "and BCH/BTG spends with and without the fork-id bit. Non-trivial ('hard'): hash type base is not ALL, or ANYONECANPAY, or a code "
+        "separator / unparsable tail is present; distinct by (coin, algorithm, tx, idx, script, ht). Each clause of the statement has its own "
+        "required counter (legacy_algorithm.* / forkid_variant.* / bip143.* / tap.* / fork_coin_spend.*).")
 ASSUMPTIONS = [
     "reference digests in vmon/refs/sighash.py follow Bitcoin Core's SignatureHash (legacy serializer semantics incl. the SIGHASH_SINGLE "
     "'one' constant) and BIP143; self-tested on BIP143's published example and, through the reference interpreter, on every signature in "
@@ -25,6 +28,15 @@ ASSUMPTIONS = [
     "BCH: BIP143 digest with the hash-type byte as is, refusal = any exception when bit 0x40 is clear; BTG: BIP143 with 79<<8 OR-ed into the "
     "4-byte hash type; GRS: same preimages with single SHA-256 throughout (sub-hashes included)",
     "Bitcoin Cash / Gold hash types are bytes 0..255 (the fork id is folded in by the library), as the statement's quantifier says",
+    "the refusal of a hash type without the fork-id bit is demanded where the fork digest replaces the legacy algorithm (_signature_hash, and "
+    "legacy script validation); at the witness-v0 entry point of BCH / BTG a refusal is tolerated and a returned value must be the fork digest",
+    "tap: a digest pycoin verifies must be one consensus defines for some (signature, script code) pair of the input; when the reference "
+    "stopped at a signature / key encoding rule before hashing, the pairs behind that rule count too (the order of encoding rules and hashing "
+    "is not part of the statement)",
+    "for BCH / BTG legacy-style scripts the reference (c05.ForkChecker) removes the checked signature from the script code before the fork "
+    "digest, as pycoin does; the statement does not say whether that removal applies to the fork-id variants and no workload decides it",
+    "no published vector validates the BCH / BTG / GRS digests of the reference: they are the self-tested BIP143 / legacy preimages with the "
+    "documented substitutions (fork id in the hash-type word, single SHA-256)",
 ]
 EXPLANATION = "digest returned by pycoin == reference digest (as a big-endian integer); computing it leaves tx.as_bin() and every field unchanged"
 TIMEOUT = {"quick": 900, "thorough": 4 * 3600}
@@ -79,9 +91,9 @@ def to_pycoin(net, t, amounts, spks):
     return Tx(t["version"], ins, outs, t["lock_time"], unspents)
 
 
-def gen_tx(rng):
-    n_in = rng.choice([1, 1, 2, 3, 4, 6])
-    n_out = rng.choice([0, 1, 1, 2, 3, 6])
+def gen_tx(rng, n_in=None, n_out=None):
+    n_in = rng.choice([1, 1, 2, 3, 4, 6]) if n_in is None else n_in
+    n_out = rng.choice([0, 1, 1, 2, 3, 6]) if n_out is None else n_out
     B32 = [0, 1, 2, 0x7fffffff, 0x80000000, 0xffffffff, 0xfffffffe]
     ins = []
     for _ in range(n_in):
@@ -93,14 +105,22 @@ def gen_tx(rng):
     for _ in range(n_out):
         outs.append({"value": rng.choice([0, 1, (1 << 63) - 1, (1 << 64) - 1, 21 * 10 ** 14, rng.randrange(1 << 40)]),
                      "script": rng.choice([b"", b"\x6a", b"\x76\xa9\x14" + bytes(20) + b"\x88\xac", bytes(rng.randrange(256) for _ in range(rng.choice([1, 25, 252, 253, 300])))])})
+    if rng.random() < 0.3:
+        # witness-bearing inputs: no digest commits to witness data, and as_bin() (compared before / after) carries it
+        for i in ins:
+            if rng.random() < 0.6:
+                i["witness"] = [bytes(rng.randrange(256) for _ in range(rng.choice([0, 1, 33, 72]))) for _ in range(rng.choice([1, 2, 3]))]
     return {"version": rng.choice(B32), "ins": ins, "outs": outs, "lock_time": rng.choice(B32 + [500000000, 499999999])}
 
 
 _FIXED_PK = [b"\x21\x02" + bytes([7 + j]) * 32 for j in range(3)]
 
 
-def gen_script_code(rng):
-    k = rng.randrange(12)
+N_SCRIPT_CLASSES = 12
+
+
+def gen_script_code(rng, k=None):
+    k = rng.randrange(N_SCRIPT_CLASSES) if k is None else k
     # a third of the script codes come from a small fixed pool, so that the SAME script code meets many different
     # transactions / inputs / amounts within one process (anything memoised on the script alone would show)
     pk = rng.choice(_FIXED_PK) if rng.random() < 0.35 else b"\x21\x02" + bytes(rng.randrange(256) for _ in range(32))
@@ -133,21 +153,39 @@ def is_hard(ht, cls):
     return (ht & 0x1f) != 1 or bool(ht & 0x80) or cls.startswith("codesep") or cls in ("opsoup", "random")
 
 
+FORK_COINS = ("BCH", "BTG")
+
+
 def expected(coin, tx, idx, script, amount, ht, algo):
-    """-> ('digest', int) or ('refuse', None)"""
+    """-> ('digest', int) | ('refuse', None) | ('digest_or_refuse', int)"""
+    kind = "digest"
     if coin in ("BTC", "LTC"):
         d = SH.legacy(tx, idx, script, ht) if algo == "legacy" else SH.bip143(tx, idx, script, amount, ht)
     elif coin == "GRS":
         d = SH.legacy(tx, idx, script, ht, H=sha) if algo == "legacy" else SH.bip143(tx, idx, script, amount, ht, H=sha)
-    elif coin == "BCH":
-        if algo == "legacy" and not (ht & 0x40):
-            return ("refuse", None)
-        d = SH.bip143(tx, idx, script, amount, ht)
-    elif coin == "BTG":
-        if algo == "legacy" and not (ht & 0x40):
-            return ("refuse", None)
-        d = SH.bip143(tx, idx, script, amount, ht, fork_or=79 << 8)
-    return ("digest", int.from_bytes(d, "big"))
+    else:
+        if not (ht & 0x40):
+            if algo == "legacy":
+                return ("refuse", None)
+            # the witness-v0 entry point of a fork-id coin, hash type without the fork-id bit: the statement demands the refusal
+            # where the fork digest replaces the legacy algorithm (DESIGN 11.2) and does not forbid it here; a value that IS
+            # returned must be the fork digest
+            kind = "digest_or_refuse"
+        d = SH.bip143(tx, idx, script, amount, ht, fork_or=79 << 8 if coin == "BTG" else 0)
+    return (kind, int.from_bytes(d, "big"))
+
+
+def judge(coin, algo, kind, want, st, got):
+    """-> None (agrees with the statement) | (mechanism stem, observed, expected)"""
+    if kind == "refuse":
+        return ("%s.accepts_hashtype_without_forkid" % coin.lower(), got, "refusal") if st == "ok" else None
+    if st != "ok":
+        if kind == "digest_or_refuse":
+            return None
+        return ("%s.%s.raises.%s" % (coin.lower(), algo, type(got).__name__), got, want)
+    if got != want:
+        return ("%s.%s.digest_mismatch" % (coin.lower(), algo), got, want)
+    return None
 
 
 def snapshot(tx):
@@ -157,10 +195,25 @@ def snapshot(tx):
             tuple((u.coin_value, bytes(u.script)) for u in tx.unspents))
 
 
+def script_traits(script):
+    """which clauses of the legacy script-code treatment this script code reaches (decided by the reference helpers)"""
+    stripped = SH.strip_codeseparators(script)
+    pc, ok = 0, True
+    while pc < len(script) and ok:
+        ok, _, _, pc = SH.get_op(script, pc)
+    return {"codesep_stripped": stripped != script,            # an OP_CODESEPARATOR opcode is removed
+            "codesep_byte_kept": 0xab in stripped,             # a 0xab byte that is NOT an executed-position opcode stays
+            "unparsable_tail": not ok}
+
+
 def check_one(rec, coin, net, t, idx, script, cls, amounts, spks, hts):
     tx = to_pycoin(net, t, amounts, spks)
     sc = tx.SolutionChecker(tx)
     before = snapshot(tx)
+    traits = script_traits(script)
+    legacy_coin = coin not in FORK_COINS
+    n_cmp = {"legacy": 0, "segwit": 0}
+    n_refused = n_single_no_out = n_tolerated = 0
     for ht in hts:
         for algo, fn, op in (("legacy", sc._signature_hash, "_signature_hash"), ("segwit", sc._signature_for_hash_type_segwit, "_signature_for_hash_type_segwit")):
             kind, want = expected(coin, t, idx, script, amounts[idx], ht, algo)
@@ -170,21 +223,45 @@ def check_one(rec, coin, net, t, idx, script, cls, amounts, spks, hts):
             rec.case((coin, algo, before[0], idx, script, ht), nontrivial=is_hard(ht, cls))
             if is_hard(ht, cls):
                 rec.ev("hard")
-            case = {"coin": coin, "algo": algo, "tx": t, "idx": idx, "script": script, "cls": cls, "amounts": amounts, "spks": spks, "ht": ht}
+            bad = judge(coin, algo, kind, want, st, got)
             if kind == "refuse":
-                if st == "ok":
-                    rec.violation("%s.accepts_hashtype_without_forkid" % coin.lower(), case, got, "refusal")
-                continue
-            if st != "ok":
-                rec.violation("%s.%s.raises.%s" % (coin.lower(), algo, type(got).__name__), case, got, want)
-            elif got != want:
-                base = {1: "all", 2: "none", 3: "single"}.get(ht & 0x1f, "other")
-                tag = base + ("+acp" if ht & 0x80 else "")
+                n_refused += st != "ok"
+            elif st == "ok":
+                n_cmp[algo] += 1
                 if (ht & 0x1f) == 3 and idx >= len(t["outs"]):
-                    tag += ".single_no_output"
-                if cls.startswith("codesep") or cls in ("opsoup", "random"):
-                    tag += ".codesep_or_odd_script"
-                rec.violation("%s.%s.digest_mismatch.%s" % (coin.lower(), algo, tag), case, got, want)
+                    n_single_no_out += 1
+            else:
+                n_tolerated += kind == "digest_or_refuse"
+            if bad:
+                mech = bad[0]
+                if mech.endswith("digest_mismatch"):
+                    base = {1: "all", 2: "none", 3: "single"}.get(ht & 0x1f, "other")
+                    mech += "." + base + ("+acp" if ht & 0x80 else "")
+                    if (ht & 0x1f) == 3 and idx >= len(t["outs"]):
+                        mech += ".single_no_output"
+                    if cls.startswith("codesep") or cls in ("opsoup", "random"):
+                        mech += ".codesep_or_odd_script"
+                    if len(t["ins"]) >= 253 or len(t["outs"]) >= 253:
+                        mech += ".many_ins_or_outs"
+                case = {"coin": coin, "algo": algo, "tx": t, "idx": idx, "script": script, "cls": cls, "amounts": amounts, "spks": spks, "ht": ht}
+                rec.violation(mech, case, bad[1], bad[2])
+    # which clauses of the statement these comparisons reached
+    fam = "legacy_algorithm" if legacy_coin else "forkid_variant"
+    rec.ev("%s.digests_compared" % fam, n_cmp["legacy"])
+    rec.ev("%s.digests_compared.%s" % (fam, coin), n_cmp["legacy"])
+    rec.ev("bip143.digests_compared.%s" % coin, n_cmp["segwit"])
+    if n_cmp["legacy"]:
+        for k, v in traits.items():
+            if v:
+                rec.ev("%s.script_code.%s" % (fam, k))
+        rec.ev("%s.single_without_matching_output" % fam, n_single_no_out)
+    if not legacy_coin:
+        rec.ev("forkid_variant.refusals_observed.%s" % coin, n_refused)
+        rec.ev("forkid_variant.witness_entry_refusal_tolerated", n_tolerated)
+    if len(t["ins"]) >= 253 or len(t["outs"]) >= 253:
+        rec.ev("many_ins_or_outs.digests_compared", n_cmp["legacy"] + n_cmp["segwit"])
+    if any(i["witness"] for i in t["ins"]):
+        rec.ev("witness_bearing_tx")
     after = snapshot(tx)
     rec.ev("purity_checks")
     if after != before:
@@ -254,13 +331,15 @@ def checker_history(rec, rng, coin, net, t, amounts, spks):
         rec.case((coin, "hist", step, idx, ht, algo, txser.serialize(t)), nontrivial=True)
         case = {"coin": coin, "algo": algo, "tx": t, "idx": idx, "script": script, "cls": cls, "amounts": list(amounts), "spks": spks, "ht": ht,
                 "history": log[-12:]}
-        if kind == "refuse":
-            if st == "ok":
-                rec.violation("%s.accepts_hashtype_without_forkid" % coin.lower(), case, got, "refusal")
-        elif st != "ok":
-            rec.violation("%s.%s.raises.%s" % (coin.lower(), algo, type(got).__name__), case, got, want)
-        elif got != want:
-            rec.violation("%s.%s.stateful_digest_mismatch" % (coin.lower(), algo), case, got, want)
+        bad = judge(coin, algo, kind, want, st, got)
+        if bad:
+            mech = bad[0]
+            if mech.endswith("digest_mismatch"):
+                mech = "%s.%s.stateful_digest_mismatch" % (coin.lower(), algo)
+            rec.violation(mech, case, bad[1], bad[2])
+
+
+BIG_HASH_TYPES = [0, 1, 2, 3, 0x41, 0x42, 0x43, 0x81, 0x82, 0x83, 0xc1, 0xc2, 0xc3]
 
 
 def run_direct(spec, rec):
@@ -270,7 +349,8 @@ def run_direct(spec, rec):
     for k in range(spec["n"]):
         t = gen_tx(rng)
         idx = rng.randrange(len(t["ins"]))
-        script, cls = gen_script_code(rng)
+        # the first cases of a shard walk through every script-code class, the rest draw at random
+        script, cls = gen_script_code(rng, k if k < N_SCRIPT_CLASSES else None)
         amounts = [rng.choice([0, 1, (1 << 63) - 1, (1 << 64) - 1, 600000000]) for _ in t["ins"]]
         spks = [b"\x51" for _ in t["ins"]]
         check_one(rec, coin, net, t, idx, script, cls, amounts, spks, range(256))
@@ -278,6 +358,44 @@ def run_direct(spec, rec):
         if k < 1:
             rec.sample({"coin": coin, "n_in": len(t["ins"]), "n_out": len(t["outs"]), "idx": idx, "script_class": cls, "script": script[:40],
                         "hash_types": "0..255", "version": t["version"], "lock_time": t["lock_time"]})
+    # "any number of inputs / outputs": counts and positions past the one-byte compact-size range, a few hash types each.
+    # One transaction sits on the boundary (253 inputs; 0 / 252 / 253 outputs), one lies beyond it with an output for every input
+    for _ in range(1 if spec["tier"] == "quick" else 4):
+        n_big = rng.choice([254, 300])
+        for n_in, n_out in ((253, rng.choice([0, 252, 253])), (n_big, n_big + rng.choice([0, 1]))):
+            t = gen_tx(rng, n_in, n_out)
+            amounts = [rng.choice([0, 1, (1 << 63) - 1, (1 << 64) - 1, 600000000]) for _ in t["ins"]]
+            spks = [b"\x51" for _ in t["ins"]]
+            for idx in sorted({0, rng.choice([251, 252]), n_in - 1}):
+                script, cls = gen_script_code(rng)
+                check_one(rec, coin, net, t, idx, script, cls, amounts, spks, BIG_HASH_TYPES + [rng.randrange(256)])
+
+
+ENCODING_FLAGS = RS.STRICTENC | RS.DERSIG | RS.LOW_S | RS.WITNESS_PUBKEYTYPE
+
+
+def reference_digests(case, flags):
+    """-> (verdict, log): the reference interpreter's verdict and, for every non-empty signature it reached, the entry
+    (sigversion, hash type, script code after FindAndDelete, digest, signature blob)"""
+    log = []
+    tx, n = case["tx"], case["n_in"]
+    chk = RS.TxChecker(tx, n, case["amount"], sighash_log=log)
+    i = tx["ins"][n]
+    return RS.result_of(RS.verify_script, i["script"], case["spk"], i["witness"], flags, chk), log
+
+
+def executed_legacy_scripts(case):
+    """the scripts a legacy signature operation of this spend can run in: the scriptPubKey and, for P2SH, the redeem script"""
+    spk = case["spk"]
+    out = [spk]
+    if len(spk) == 23 and spk[:2] == b"\xa9\x14" and spk[22:] == b"\x87":
+        ssig = case["tx"]["ins"][case["n_in"]]["script"]
+        pc, last, ok = 0, None, True
+        while pc < len(ssig) and ok:
+            ok, _, last, pc = SH.get_op(ssig, pc)
+        if ok and last:
+            out.append(bytes(last))
+    return out
 
 
 def run_tap(spec, rec):
@@ -287,10 +405,6 @@ def run_tap(spec, rec):
     rng = shard_rng(spec["seed"], PROPERTY, spec["tier"], spec["shard"])
     py = c03.Py()
     seen = []
-
-    def after(a, kw, r, e):
-        # bound method wrapper: a = (public_pair, val, sig)
-        seen.append(a[1] if len(a) > 1 else kw.get("val"))
     gen_cls = type(secp256k1_generator)
     seen_pairs = []
 
@@ -303,7 +417,8 @@ def run_tap(spec, rec):
         except Exception:
             pass
     w = Wrapped(gen_cls, "verify", after=tap, rec=rec, op="Generator.verify")
-    rec.require("tap:Generator.verify")
+    rec.require("tap:Generator.verify", "tap.digest_verified.legacy", "tap.digest_verified.witness_v0",
+                "tap.signature_removed_from_script_code", "tap.signature_removed_from_script_code.pushdata_form")
     try:
         keys = G.Keys()
         sg = G.SigGen(rng, keys)
@@ -312,17 +427,21 @@ def run_tap(spec, rec):
             for case in gen:
                 del seen[:]
                 del seen_pairs[:]
-                log = []
                 tx, n = case["tx"], case["n_in"]
-                chk = RS.TxChecker(tx, n, case["amount"], sighash_log=log)
                 i = tx["ins"][n]
-                ref = RS.result_of(RS.verify_script, i["script"], case["spk"], i["witness"], case["flags"], chk)
-                pytx = py.build(case)
-                before = pytx.as_bin()
+                ref, log = reference_digests(case, case["flags"])
                 code, _ = py.spend(case)
-                ptx2 = py.build(case)
                 rec.ev("Tx.check_solution")
                 ref_digests = {int.from_bytes(e[3], "big") for e in log}
+                got = set(seen)
+                if not got <= ref_digests:
+                    # pycoin verified a signature the reference did not reach. The reference stops at an encoding rule
+                    # BEFORE hashing; the order of the encoding rules and the hashing is not part of the statement, so the
+                    # digests consensus defines for the pairs behind those rules count too
+                    _, log2 = reference_digests(case, case["flags"] & ~ENCODING_FLAGS)
+                    log = log + log2
+                    ref_digests |= {int.from_bytes(e[3], "big") for e in log2}
+                    rec.ev("tap_reference_rerun_without_encoding_rules")
                 # the digests consensus defines per signature (keyed by the signature's r value)
                 by_r = {}
                 for e in log:
@@ -330,11 +449,25 @@ def run_tap(spec, rec):
                     if rs:
                         by_r.setdefault(rs[0], set()).add(int.from_bytes(e[3], "big"))
                 rec.case(("tap", i["script"], case["spk"], tuple(i["witness"]), case["flags"], tx["version"]), nontrivial=bool(ref_digests))
-                got = set(seen)
                 if got:
                     rec.ev("tap_cases_with_digest")
                 if ref == "OK" and code == "OK":
                     rec.ev("tap_both_ok")
+                # which clauses the verified digests belong to
+                scripts = None
+                for e in log:
+                    if int.from_bytes(e[3], "big") not in got:
+                        continue
+                    if e[0] == RS.SIGVERSION_BASE:
+                        rec.ev("tap.digest_verified.legacy")
+                        scripts = executed_legacy_scripts(case) if scripts is None else scripts
+                        if any(SH.find_and_delete(scr, SH.push_data(e[4]))[1] for scr in scripts):
+                            # removal of the signature being checked really changed the script code that was hashed
+                            rec.ev("tap.signature_removed_from_script_code")
+                            if len(e[4]) >= 76:
+                                rec.ev("tap.signature_removed_from_script_code.pushdata_form")
+                    else:
+                        rec.ev("tap.digest_verified.witness_v0")
                 # every digest pycoin verified a signature against must be one the consensus rules define for some
                 # (signature, script code) pair of this input; pycoin may verify fewer (it gives up on a pair earlier)
                 if not got <= ref_digests:
@@ -384,11 +517,12 @@ def run_fork_spends(spec, rec):
             st, got = observe(tx.is_solution_ok, 0, flags=flags)
             rec.ev("fork_coin_spend")
             rec.ev("fork_coin_spend.%s" % ("with_forkid" if ht & 0x40 else "without_forkid"))
+            rec.ev("fork_coin_spend.%s.%s" % (coin, "valid_for_reference" if ref == "OK" else "invalid_for_reference"))
             rec.case(("forkspend", coin, txser.serialize(t), spk, flags))
             case = {"coin": coin, "tx": t, "spk": spk, "amount": amount, "flags": flags, "ht": ht, "forkspend": True}
             if st != "ok":
                 rec.violation("%s.validation_raises.%s" % (coin.lower(), type(got).__name__), case, got, ref)
-            elif got is not (ref == "OK"):
+            elif bool(got) != (ref == "OK"):
                 why = "hashtype_without_forkid_tolerated" if not (ht & 0x40) and got else "verdict_differs"
                 rec.violation("%s.spend.%s" % (coin.lower(), why), case, got, ref)
 
@@ -396,6 +530,7 @@ def run_fork_spends(spec, rec):
 def run_shard(spec, rec):
     if spec["kind"] == "forkspend":
         rec.require("fork_coin_spend.without_forkid", "fork_coin_spend.with_forkid")
+        rec.require(*["fork_coin_spend.%s.%s" % (c, v) for c in FORK_COINS for v in ("valid_for_reference", "invalid_for_reference")])
         run_fork_spends(spec, rec)
         return
     if spec["kind"] == "suite":
@@ -403,8 +538,17 @@ def run_shard(spec, rec):
         rec.require("suite.sighash.legacy", "suite.sighash.segwit")
         suite.run_suite(spec, rec, ["suite.sighash"], "suite.sighash.legacy")
         return
-    rec.require("_signature_hash", "_signature_for_hash_type_segwit", "purity_checks", "history_query") if spec["kind"] == "direct" else None
     if spec["kind"] == "direct":
+        coin = spec["coin"]
+        fam = "forkid_variant" if coin in FORK_COINS else "legacy_algorithm"
+        rec.require("_signature_hash", "_signature_for_hash_type_segwit", "purity_checks", "history_query", "coin:" + coin,
+                    "%s.digests_compared.%s" % (fam, coin), "bip143.digests_compared.%s" % coin,
+                    "%s.single_without_matching_output" % fam, "many_ins_or_outs.digests_compared")
+        # every clause of the script-code treatment: separators removed, 0xab bytes that are not separators kept, tail that
+        # does not parse copied (the fork-id variants must leave all of them in place: BIP143 hashes the script code as is)
+        rec.require(*["%s.script_code.%s" % (fam, k) for k in ("codesep_stripped", "codesep_byte_kept", "unparsable_tail")])
+        if coin in FORK_COINS:
+            rec.require("forkid_variant.refusals_observed.%s" % coin)
         run_direct(spec, rec)
     else:
         run_tap(spec, rec)
@@ -418,8 +562,9 @@ def replay_case(case, rec):
         chk = c05.ForkChecker(t, 0, case["amount"], c05.FORK[case["coin"]])
         ref = RS.result_of(RS.verify_script, t["ins"][0]["script"], case["spk"], [], case["flags"], chk)
         got = to_pycoin(net, t, [case["amount"]], [case["spk"]]).is_solution_ok(0, flags=case["flags"])
-        if got is not (ref == "OK"):
-            rec.violation("%s.spend.verdict_differs" % case["coin"].lower(), case, got, ref)
+        if bool(got) != (ref == "OK"):
+            why = "hashtype_without_forkid_tolerated" if not (case["ht"] & 0x40) and got else "verdict_differs"
+            rec.violation("%s.spend.%s" % (case["coin"].lower(), why), case, got, ref)
         return
     if "coin" in case:
         net = network_for(case["coin"])
